@@ -6,5 +6,5 @@ EXTENDS LangGen
 MCP == [names |-> {"x"}, funs |-> {"f"}, arity |-> [f \in {"f"} |-> 0], ty |-> "num",
         kinds |-> {"set", "shout", "def", "if"},
         prelude |-> <<Make(900, "x", Num(0))>>, preDecl |-> {"x"}, ops |-> {},
-        maxStmts |-> atoi(IOEnv.MAXSTMTS), minStmts |-> 4, maxDepth |-> 3, fuel |-> 600, events |-> atoi(IOEnv.EVENTS)]
+        maxStmts |-> atoi(IOEnv.MAXSTMTS), minStmts |-> 4, maxDepth |-> 3, fuel |-> 120, events |-> atoi(IOEnv.EVENTS)]
 ====
